@@ -86,6 +86,7 @@ class Outcome:
         self.kani_covers = {"sat": 0, "total": 0}
         self.dropped = []
         self.generator_info = None
+        self.native_witnesses = None
 
 
 def run_verus_unit(plan, u, out, tier):
@@ -124,7 +125,10 @@ def run_verus_unit(plan, u, out, tier):
     for f in r["failures"]:
         o = f.get("origin", {})
         efn = f.get("fn")
-        if o.get("k") == "template" or efn is None:
+        if o.get("k") == "const":
+            efn = o.get("fn")
+            f["fn"] = efn
+        elif o.get("k") == "template" or efn is None:
             efn = enclosing_fn(gen_lines, f.get("gen_line", 0))
             f["fn"] = efn
         if efn and efn.startswith("canary_"):
@@ -292,7 +296,14 @@ def attach_replays(plan, out):
                     src = kani_failed[t]
                     rep["kani_twin"] = t
                     break
-        if src is not None and ((src["crate"], src["harness"]) in playback_cache or budget > 0):
+        nw = getattr(out, "native_witnesses", None)
+        if src is None and nw and nw.get("inputs"):
+            # no model from the verifier, but a native search on the real functions found failing inputs
+            rep["counterexample"] = {"found_by": "native companion (bounded search, not the verifier)", "inputs": nw["inputs"],
+                                     "oracle": nw["what"]}
+            rep["replay_on_real_code"] = {"ran": True, "failed": True, "cmd": nw["cmd"]}
+            f["has_input"] = True
+        elif src is not None and ((src["crate"], src["harness"]) in playback_cache or budget > 0):
             if (src["crate"], src["harness"]) not in playback_cache:
                 budget -= 1
             pb, nat = playback(src["crate"], src["harness"], src.get("extra_args"), src.get("harness_timeout", 900),
